@@ -25,7 +25,8 @@ PlainExists == Done => ParseStr(RefPlain(Parts)) = Parts
 Decodable == Done =>
     \A j \in 1..Len(Groups[g].ks) :
         LET K == Configs[Groups[g].ks[j]] IN
-        /\ WellFormed(K)
+        \* (configuration 8 is the deliberately ill-formed one of the recorded deviation Dev_EscapeCharNotEscaped)
+        WellFormed(K) =>
         /\ Supported(K, Parts) =>
              /\ DecodeBody(K, RefRender(K, Parts)) = FilterParts(K, Parts)
              /\ (K.quote # NONE =>
